@@ -964,7 +964,7 @@ func c18FlagSets(r *fw.Rec, kind string, blk, nblk int) {
 			}
 		}
 		rec(0, 0, 0)
-		n := r.Ctx().Pick(2000, 10000)
+		n := r.Ctx().Pick(2000, 40000)
 		for i := 0; i < n; i++ {
 			var v int64
 			for _, b := range bits {
